@@ -10,7 +10,7 @@ use serde_json::json;
 use std::sync::atomic::{AtomicU64, Ordering};
 
 const MEANS: [f64; 7] = [0.2, 0.49, 0.5, 1.5, 2.5, 10.0, 60.0];
-const VARS: [f64; 3] = [1e-3, 1.0, 400.0];
+const VARS: [f64; 4] = [0.0, 1e-3, 1.0, 400.0];
 const SPEEDS: [f64; 11] = [0.1, 0.25, 0.5, 0.999, 1.0, 1.001, 1.2, 1.4, 2.0, 4.0, 50.0];
 
 fn is_tie(x: f64) -> bool {
@@ -95,7 +95,7 @@ fn check_model(p: &[MeanVari], rep: &Report, ties: &AtomicU64, floors: &AtomicU6
 
 pub fn run(tier: Tier) -> i32 {
     let rep = Report::new("C08", tier, "model_checking");
-    rep.set_rule("SCOPE: full product over states 1..N of (mean in {0.2,0.49,0.5,1.5,2.5,10,60}) x (variance in {1e-3,1,400}) x speed lattice {0.1..50} plus F1/(k+0.5)(1±1e-9) rounding boundaries, on the real DurationEstimator::create; plus long utterances (200 and 1500 states, totals up to 10^6 frames); distinct = distinct (model, speed) pairs; non-trivial = every case (each evaluates the total-frames law)");
+    rep.set_rule("SCOPE: full product over states 1..N of (mean in {0.2,0.49,0.5,1.5,2.5,10,60}) x (variance in {0,1e-3,1,400}) x speed lattice {0.1..50} plus F1/(k+0.5)(1±1e-9) rounding boundaries, on the real DurationEstimator::create; plus long utterances (200 and 1500 states, totals up to 10^6 frames); distinct = distinct (model, speed) pairs; non-trivial = every case (each evaluates the total-frames law)");
     rep.assume("means/variances/speeds outside the listed alphabets are not explored; at exact .5 ties either rounding is accepted");
     let max_states = tier.pick(4usize, 5usize);
     let per = MEANS.len() * VARS.len();
